@@ -2207,8 +2207,10 @@ class Field(
 
             constructs: `bool`
                 If True then also insert the new axis into all
-                metadata constructs that don't already include it. By
-                default, metadata constructs are not changed.
+                metadata constructs that don't already include it,
+                apart from dimension coordinate constructs, whose
+                data are always 1-dimensional. By default, metadata
+                constructs are not changed.
 
                 .. versionadded:: (cfdm) 1.11.1.0
 
@@ -2285,6 +2287,11 @@ class Field(
             for key, construct in f.constructs.filter_by_data(
                 todict=True
             ).items():
+                if construct.construct_type == "dimension_coordinate":
+                    # A dimension coordinate construct always has
+                    # 1-dimensional data
+                    continue
+
                 data = construct.get_data(
                     None, _units=False, _fill_value=False
                 )
